@@ -196,6 +196,9 @@ def run_entries(e, inp):
         ("split", lambda: list(e.split(inp))), ("split_seps", lambda: list(e.split(inp, include_separators=True, maxsplit=2))),
         ("transform_string", lambda: e.copy().transform_string(inp)),
         ("run_tests", lambda: e.run_tests([inp], print_results=False, comment=None)),
+        # the other documented shapes of the test list: one multi-line string with comment lines and blank lines, numbered lines
+        ("run_tests_text", lambda: e.run_tests("# note\n\n" + inp.replace("\n", " ").replace("\r", " ") + "\n\n# end\n", print_results=False, with_line_numbers=True)),
+        ("run_tests_fail", lambda: e.run_tests(["# c", "", inp], print_results=False, failure_tests=True, with_line_numbers=True, full_dump=False)),
     ]
     for name, f in calls:
         try:
